@@ -1210,6 +1210,46 @@ pub fn coarse_hash_cases(cx: &mut Ctx, n: usize, o: &CheckOpts) {
     COARSE_HASH.store(false, std::sync::atomic::Ordering::SeqCst);
 }
 
+/// C03, "a group-then-combine pair is replaced by a direct combine only when both give the same per-key result" —
+/// judged on the REAL engine against ITSELF: the planned run (lift active) and the literal run (hook
+/// `verif_hooks::set_skip_lift`: the same chain, `group_by_key` followed by the lifted combine's `build_from_group`
+/// path) must return the same rows, in sequential mode and in parallel mode. No reference of ours is involved, so the
+/// verdict does not rest on any order the crate does not promise. Programs: `gen_ordered_prog` (the non-commutative
+/// `ULast`, where the two plans differ as soon as either of them reorders what it merges) and generated GBK+lifted pairs
+/// with the built-in combiners.
+pub fn lift_vs_literal_cases(cx: &mut Ctx, n: usize) {
+    let o = CheckOpts { par_vs_seq: false, vs_reference: false };
+    for i in 0..n {
+        let parts = 2 + cx.rng.below(6);
+        let p = if i % 3 != 2 {
+            let mut p = gen_ordered_prog(&mut cx.rng, parts);
+            // only the lifted shapes
+            if !p.steps.iter().any(|s| matches!(s, Step::Gbk)) { let k = p.steps.len(); p.steps.truncate(k - 1); if matches!(p.steps.last(), Some(Step::Values)) { p.steps.pop(); } p.steps.push(Step::Gbk); p.steps.push(Step::CombineValuesLifted(Comb::ULast)); }
+            p
+        } else {
+            let mut p = gen_ordered_prog(&mut cx.rng, parts);
+            let c = [Comb::Sum, Comb::Count, Comb::MinT, Comb::Topk(2), Comb::USumMod(7), Comb::UMaxAbs][cx.rng.below(6)].clone();
+            p.steps.retain(|s| matches!(s, Step::MapValues(_) | Step::FilterValues(_)));
+            p.steps.push(Step::Gbk); p.steps.push(Step::CombineValuesLifted(c));
+            p
+        };
+        cx.count("pipe:lift-vs-literal");
+        for m in [Mode::Seq, Mode::Par(parts)] {
+            let canon = p.canon();
+            let planned = run_real(&p, m);
+            ironbeam::verif_hooks::set_skip_lift(true);
+            let literal = run_real(&p, m);
+            ironbeam::verif_hooks::set_skip_lift(false);
+            let a = outcome_answer(&planned, canon);
+            let b = outcome_answer(&literal, canon);
+            let idx = cx.case(p.request(&m.enc()), a.clone(), p.src.len() >= 2);
+            if matches!(planned, Outcome::Hang) || matches!(literal, Outcome::Hang) { cx.oracle_fail(idx, "run-does-not-terminate", format!("mode {}", m.enc())); continue; }
+            if a != b { cx.oracle_fail(idx, "lifted-plan-differs-from-literal-group-then-combine", format!("mode={} planned={a} literal(lift pass skipped)={b}", m.enc())); }
+        }
+        let _ = &o;
+    }
+}
+
 /// run `n` of them in sequential mode and two parallel modes
 pub fn ordered_comb_cases(cx: &mut Ctx, n: usize, o: &CheckOpts) {
     for _ in 0..n {
